@@ -1,8 +1,10 @@
 prop("C12", pkg="c12", fuzz=[("FuzzWireDiff", 60)],
      rule="rapid draws a message schema (1-4 messages forming a DAG, 0-7 fields each: bool/int/int32/int64/uint/uint32/uint64/float32/float64/string/[]byte, "
-          "repeated, map<K,V> with integral/bool/string keys, nested message by value or pointer incl. single-field 'inlined' shapes; in 2/3 of the schemas message slots (singular, pointer, repeated element, map value) may also be of two "
-          "struct-kind self-encoding types, pschema.PMsg implementing proto.Message and pschema.CMsg implementing the gogo-style Size/MarshalTo/Unmarshal interface, both "
-          "writing/merging the ordinary message {uint64 x=1; string s=2}, which the reference sees as a plain nested message; untagged or fully "
+          "repeated, map<K,V> with integral/bool/string keys, nested message by value or pointer incl. single-field 'inlined' shapes; in 2/3 of the schemas message slots (singular, pointer, repeated element, map value) may also be of four "
+          "struct-kind types with encoding methods: pschema.PMsg (implements proto.Message), CMsg (gogo-style Size/MarshalTo/Unmarshal), PMsgPM (proto.Message plus a ProtoMessage() "
+          "marker: still self-encoding, codecOf gives proto.Message precedence) and CMsgPM (custom interface plus ProtoMessage(): the library then ignores the methods and encodes "
+          "the plain struct), all standing for the ordinary message {uint64 x=1; string s=2}, which the reference sees as a plain nested message; a quarter of the messages declare "
+          "1-2 unexported Go fields (some with a protobuf tag) before / between / after the exported ones, which must not influence numbering or encoding; untagged or fully "
           "tagged with numbers weighted on 15/16, 2047/2048, 65535 and zigzag/fixed options) which is materialised both as a reflect.StructOf type with "
           "protobuf struct tags and as a proto3 FileDescriptorProto (packed=false, map_entry) checked field by field against proto.TypeOf; 2-8 (thorough: 6-24) value recipes per "
           "schema. Each value gives one encode evaluation (reference decodes seg.Marshal(v) or Marshal(&v): no error, no unknown fields, equal fields, floats by "
@@ -13,8 +15,8 @@ prop("C12", pkg="c12", fuzz=[("FuzzWireDiff", 60)],
           "(direction, schema JSON, value JSON, by-pointer flag or wire bytes). While listed as known, the generator avoids by construction: field numbers > 65535, "
           "zigzag/fixed on repeated fields, multi-byte bool varints, decode of values with a repeated field of more than 10 elements (counts under excluded_known). "
           "Thorough tier only: a native Go fuzzing campaign FuzzWireDiff (60 s, coverage-guided, not seed-reproducible - the saved case is the reproducible unit) over "
-          "(wire bytes <= 4 KiB, selector of 11 fixed message types: every scalar kind; sint/fixed tags and numbers 15/16/1023/1024/2047/2048/65535; unpacked repeated scalars; "
-          "repeated sint/fixed; nested by value/pointer/repeated; maps of scalars; maps of messages; PMsg/CMsg slots in every position; an inlined pointer chain; numbers "
+          "(wire bytes <= 4 KiB, selector of 12 fixed message types: every scalar kind; sint/fixed tags and numbers 15/16/1023/1024/2047/2048/65535; unpacked repeated scalars; "
+          "repeated sint/fixed; nested by value/pointer/repeated; maps of scalars; maps of messages; PMsg/CMsg slots in every position, PMsgPM/CMsgPM slots in every position behind unexported fields; an inlined pointer chain; numbers "
           "above 1023 and 65535; mixed tagged/untagged nesting), seeded with reference encodings of generated values, their truncations and ~30 hostile constants (10/11-byte "
           "and overflowing varints, lengths 0/1/2^31/2^63, duplicate and split fields, every wire type on field 1, packed form, truncated and reordered map entries, field "
           "numbers 0 and 2^29, groups, invalid UTF-8, 33-bit int32, bool 2). Fuzz rule: protobuf decoders legitimately differ on malformed input, so the acceptance comparison "
